@@ -51,6 +51,7 @@ type verifStorage struct {
 	log    []string // storage calls since the last drain
 	opened int
 	closed int
+	ops    int // every storage call ever made (a progress counter for settle)
 
 	gateOpen, gateWrite, gateRead bool
 	blockedOpen, blockedWrite     int
@@ -73,6 +74,7 @@ func (s *verifStorage) RootDir() string                            { return "/ve
 func (s *verifStorage) Open(name string, size int64) (storage.File, bool, error) {
 	s.mu.Lock()
 	defer s.mu.Unlock()
+	s.ops++
 	for s.gateOpen {
 		s.blockedOpen++
 		s.release.Wait()
@@ -111,6 +113,7 @@ type verifFile struct {
 func (f *verifFile) ReadAt(p []byte, off int64) (int, error) {
 	f.s.mu.Lock()
 	defer f.s.mu.Unlock()
+	f.s.ops++
 	for f.s.gateRead {
 		f.s.blockedRead++
 		f.s.release.Wait()
@@ -132,6 +135,7 @@ func (f *verifFile) ReadAt(p []byte, off int64) (int, error) {
 func (f *verifFile) WriteAt(p []byte, off int64) (int, error) {
 	f.s.mu.Lock()
 	defer f.s.mu.Unlock()
+	f.s.ops++
 	for f.s.gateWrite {
 		f.s.blockedWrite++
 		f.s.release.Wait()
@@ -161,6 +165,7 @@ func (f *verifFile) WriteAt(p []byte, off int64) (int, error) {
 func (f *verifFile) Close() error {
 	f.s.mu.Lock()
 	defer f.s.mu.Unlock()
+	f.s.ops++
 	if !f.closed {
 		f.closed = true
 		f.s.closed++
@@ -405,16 +410,18 @@ type verifPeer struct {
 
 // verifTracker is an in-process HTTP tracker. It records every announce and can be told to hang.
 type verifTracker struct {
-	idx      int
-	ln       net.Listener
-	srv      *http.Server
-	mu       sync.Mutex
-	mode     string // ok | hang | hang-stopped
-	log      []string
-	inflight int
-	hung     int // requests currently parked because the tracker is told not to answer
-	release  chan struct{}
-	w        *VerifWorld
+	idx         int
+	ln          net.Listener
+	srv         *http.Server
+	mu          sync.Mutex
+	mode        string // ok | hang | hang-stopped
+	log         []string
+	inflight    int
+	hung        int // requests currently parked because the tracker is told not to answer
+	hungStopped int // … of which stopped announces
+	reqs        int // requests ever received
+	release     chan struct{}
+	w           *VerifWorld
 }
 
 func (tr *verifTracker) url() string { return "http://" + tr.ln.Addr().String() + "/announce" }
@@ -450,6 +457,7 @@ func (tr *verifTracker) ServeHTTP(rw http.ResponseWriter, req *http.Request) {
 		pv = "bad"
 	}
 	tr.log = append(tr.log, fmt.Sprintf("%d:%s:%s:%s:%s:L%s:P%s", tr.idx, ev, pid, ua, ih, q.Get("left"), pv))
+	tr.reqs++
 	hang := tr.mode == "hang" || (tr.mode == "hang-stopped" && ev == "stopped")
 	rel := tr.release
 	tr.inflight++
@@ -457,6 +465,9 @@ func (tr *verifTracker) ServeHTTP(rw http.ResponseWriter, req *http.Request) {
 	if hang {
 		tr.mu.Lock()
 		tr.hung++
+		if ev == "stopped" {
+			tr.hungStopped++
+		}
 		tr.mu.Unlock()
 		select {
 		case <-rel:
@@ -465,6 +476,9 @@ func (tr *verifTracker) ServeHTTP(rw http.ResponseWriter, req *http.Request) {
 		}
 		tr.mu.Lock()
 		tr.hung--
+		if ev == "stopped" {
+			tr.hungStopped--
+		}
 		tr.mu.Unlock()
 	}
 	tr.mu.Lock()
@@ -914,15 +928,29 @@ func (w *VerifWorld) barrier() (Stats, error) {
 func (w *VerifWorld) settle() error {
 	deadline := time.Now().Add(8 * time.Second)
 	stable := 0
+	lastSig := ""
 	for {
-		if _, err := w.barrier(); err != nil {
+		st0, err := w.barrier()
+		if err != nil {
 			return err
 		}
 		t := w.t
 		busy := false
 		w.sto.mu.Lock()
 		bo, bw, br := w.sto.blockedOpen, w.sto.blockedWrite, w.sto.blockedRead
+		sops := w.sto.ops
 		w.sto.mu.Unlock()
+		// The fields below are read while the loop may already be inside its next handler. A round counts as
+		// quiet only if it also shows the same progress signature as the previous quiet round: the status the
+		// loop itself reported, and the number of storage calls and tracker requests ever made (a worker that
+		// completed in between has made at least one of them).
+		treqs := 0
+		for _, tr := range w.trackers {
+			tr.mu.Lock()
+			treqs += tr.reqs
+			tr.mu.Unlock()
+		}
+		sig := fmt.Sprint(st0.Status, sops, treqs, t.allocator != nil, t.verifier != nil, t.stoppedEventAnnouncer != nil, len(t.announcers))
 		if t.allocator != nil && bo == 0 {
 			busy = true
 		}
@@ -941,16 +969,36 @@ func (w *VerifWorld) settle() error {
 			hungTotal += tr.hung
 			tr.mu.Unlock()
 		}
-		// the stop announcer is quiescent only when it is really waiting for a tracker that does not answer
-		if t.stoppedEventAnnouncer != nil && hungTotal == 0 {
-			busy = true
+		// the stop announcer is quiescent only when every tracker it announces to has received the request
+		// and those that are told not to answer hold it
+		if t.stoppedEventAnnouncer != nil {
+			expected := 0
+			for _, u := range t.stoppedEventAnnouncer.VerifTrackerURLs() {
+				for _, tr := range w.trackers {
+					tr.mu.Lock()
+					if tr.url() == u && (tr.mode == "hang" || tr.mode == "hang-stopped") {
+						expected++
+					}
+					tr.mu.Unlock()
+				}
+			}
+			hungStopped := 0
+			for _, tr := range w.trackers {
+				tr.mu.Lock()
+				hungStopped += tr.hungStopped
+				tr.mu.Unlock()
+			}
+			if expected == 0 || hungStopped < expected {
+				busy = true
+			}
 		}
 		for i, an := range t.announcers {
 			st := an.Stats().Status
 			hung := 0
 			if i < len(w.trackers) {
+				// (a stopped announce of the previous run may still be parked there: it does not count)
 				w.trackers[i].mu.Lock()
-				hung = w.trackers[i].hung
+				hung = w.trackers[i].hung - w.trackers[i].hungStopped
 				w.trackers[i].mu.Unlock()
 			}
 			if st == announcer.NotContactedYet || (st == announcer.Contacting && hung == 0) {
@@ -960,14 +1008,17 @@ func (w *VerifWorld) settle() error {
 		if len(t.incomingHandshakers) > 0 || len(t.outgoingHandshakers) > 0 {
 			busy = true
 		}
-		if !busy {
+		if !busy && (stable == 0 || sig == lastSig) {
 			stable++
 			if stable >= 2 {
 				return nil
 			}
+		} else if !busy {
+			stable = 1
 		} else {
 			stable = 0
 		}
+		lastSig = sig
 		if time.Now().After(deadline) {
 			return errors.New("unsettled")
 		}
@@ -1792,7 +1843,9 @@ func (w *VerifWorld) pieceOnDisk(sto *verifStorage, i int) bool {
 }
 
 // VerifTruth exposes ground truth needed by suites (e.g. to script an honest seed).
-func (w *VerifWorld) VerifTruth() (pieceLen, numPieces, total int) { return w.pl, w.nPieces, len(w.content) }
+func (w *VerifWorld) VerifTruth() (pieceLen, numPieces, total int) {
+	return w.pl, w.nPieces, len(w.content)
+}
 
 // VerifFileBytes returns the current bytes of all non-padding files concatenated with padding as zeros,
 // and whether each file exists (for end-state comparison with the ground truth).
